@@ -82,3 +82,18 @@ func init() {
 	addMutant(mutant{Name: "verifier/report-from-storelogs", Fire: []string{"ORD-25"},
 		Edits: []edit{{"verifier/store.go", "	for _, r := range triggeredReports {\n		s.triggerVerify(r)\n	}", "	for _, r := range triggeredReports {\n		s.reportFn(r)\n	}"}}})
 }
+
+func init() {
+	addMutant(mutant{Name: "fd/firstindex-ignores-empty-tail", Fire: []string{"FD-10"},
+		Edits: []edit{{"state.go", "		if s.tail.LastIndex() == 0 {\n			// No logs in the WAL\n			return 0\n		}\n", ""}}})
+	addMutant(mutant{Name: "fd/lastindex-off-by-one", Fire: []string{"FD-10"},
+		Edits: []edit{{"state.go", "	return tailSeg.BaseIndex - 1\n", "	return tailSeg.BaseIndex\n"}}})
+	addMutant(mutant{Name: "fd/next-segment-base-overlaps", Fire: []string{"FD-10"},
+		Edits: []edit{{"wal.go", "		nextBaseIndex = tail.MaxIndex + 1\n", "		nextBaseIndex = tail.MaxIndex\n"}}})
+	addMutant(mutant{Name: "fd/next-base-index-ignored", Fire: []string{"FD-10"},
+		Edits: []edit{{"wal.go", "	} else if newState.nextBaseIndex > 0 {\n		nextBaseIndex = newState.nextBaseIndex\n	}", "	}"}}})
+	addMutant(mutant{Name: "fd/head-keeps-empty-tail", Fire: []string{"FD-09"},
+		Edits: []edit{{"wal.go", "				if maxIdx >= newMin {\n					head = &seg", "				if maxIdx >= newMin || newState.tail.LastIndex() == 0 {\n					head = &seg"}}})
+	addMutant(mutant{Name: "fd/tail-truncation-keeps-boundary-segment", Fire: []string{"FD-09"},
+		Edits: []edit{{"wal.go", "			if seg.BaseIndex <= newMax {\n				// We're done", "			if seg.BaseIndex <= newMax+1 {\n				// We're done"}}})
+}
